@@ -374,8 +374,10 @@ def r6_constructor_order(ctx):
     ipa, pp = shared(ctx)
     out = []
     want = {
-        PH + "::new": [("new_fsopen", "subset=true"), ("new_open_tree", "AT_RECURSIVE"), ("new_unsafe_open", "")],
-        PH + "::new_unmasked": [("new_fsopen", "subset=false"), ("new_open_tree", "non-recursive"), ("new_unsafe_open", "")],
+        # which masking options the fsopen instance gets is C08.R5's business; here only the order of preference
+        # (private instance, then a clone of /proc, then the host's /proc) and the recursion flag of the clone matter
+        PH + "::new": [("new_fsopen", ""), ("new_open_tree", "AT_RECURSIVE"), ("new_unsafe_open", "")],
+        PH + "::new_unmasked": [("new_fsopen", ""), ("new_open_tree", "non-recursive"), ("new_unsafe_open", "")],
     }
     for fn, seq in want.items():
         b = F.body(fn)
@@ -417,7 +419,7 @@ def r6_constructor_order(ctx):
             if nm == "new_fsopen":
                 vals = {o.const_int() for o in T.origins_of_arg(t, 0) if o.kind == "const"}
                 others = [o for o in T.origins_of_arg(t, 0) if o.kind != "const"]
-                extra = "subset=%s" % ("?" if others or len(vals) != 1 else ("true" if vals.pop() else "false"))
+                extra = ""
             elif nm == "new_open_tree":
                 bits = ipa.bits_of(body.path)
                 v = bits.arg_value(t, 0) if bits else None
